@@ -81,13 +81,20 @@ def is_compound(n):
     return isinstance(n, (LoopIR.For, LoopIR.If))
 
 
-def judge_node(n0, n1, live):
-    """n0 original node, n1 forwarded node, live = leaf labels present in the new procedure."""
+def judge_node(n0, n1, live, old_all=frozenset()):
+    """n0 original node, n1 forwarded node, live = leaf labels present in the new procedure,
+    old_all = all leaf labels of the original procedure."""
     if is_compound(n0):
         surv = leaves(n0) & live
         if not surv:
             return "ok"
-        return "ok" if leaves(n1) & surv else "wrong-statement"
+        l1 = leaves(n1)
+        if l1 & surv:
+            return "ok"
+        # a split compound statement (fission) may keep only unlabelled statements (pass) in the part the
+        # cursor follows: that is still "the same statement"; it is a different statement only if what it
+        # contains are statements of the old procedure that were never below the cursor
+        return "wrong-statement" if (l1 & old_all) else "ok"
     l0 = leaf_label(n0)
     if l0 is None:
         return "ok"  # pass statements carry no identity
@@ -141,12 +148,12 @@ def fwd_and_judge(q, kind, c, live_q, old_all):
         return "invalid", ""
     try:
         if kind == "node":
-            return judge_node(c._impl._node, c2._impl._node, live_q), ""
+            return judge_node(c._impl._node, c2._impl._node, live_q, old_all), ""
         if kind == "gap":
             a0, a1 = c.anchor(), c2.anchor()
             if c.type() != c2.type():
                 return "wrong-statement", "gap side changed"
-            return judge_node(a0._impl._node, a1._impl._node, live_q), ""
+            return judge_node(a0._impl._node, a1._impl._node, live_q, old_all), ""
         # block
         orig = [x._impl._node for x in c]
         new = [x._impl._node for x in c2]
